@@ -388,6 +388,29 @@ def _fraction_cross_unit_task(qts):
                                         % (c, n, (num, den), u, c, y, v, ", ".join(done), truth),
                                     )
                                     break
+                            # the Fraction object the value hands out is edited IN PLACE (numerator setter / index form: no setter
+                            # of the value runs), once up and once down across b's amount: the order follows the amount shown now
+                            fr0 = a.GetValue().GetFraction()
+                            num0, den0 = int(fr0.numerator), int(fr0.denominator)
+                            for how, newnum in (("fraction.numerator = ", num0 + 4 * den0), ("fraction[0] = ", num0 - 4 * den0), ("fraction.numerator = ", num0 + 8 * den0)):
+                                fr = a.GetValue().GetFraction()
+                                if how.startswith("fraction["):
+                                    fr[0] = newnum
+                                else:
+                                    fr.numerator = newnum
+                                qa3 = model.tobase(u, Q(n) + Q(newnum, den0))
+                                for name, swap in (("<", 0), ("<", 1), (">=", 0), (">", 1)):
+                                    part.count("evaluations")
+                                    p, q, pa, qb_ = (b, a, qb, qa3) if swap else (a, b, qa3, qb)
+                                    truth = {"<": pa < qb_, ">=": pa >= qb_, ">": pa > qb_}[name]
+                                    try:
+                                        g = opf[name](p, q)
+                                    except Exception as e:
+                                        g = repr(e)
+                                    if g != truth:
+                                        part.violation("C08:fraction-cross-unit:%s %r %s vs %s %s:after comparisons the caller edits the value's Fraction in place (%s%d): %s %s %s" % (qt, (n, (num, den)), u, kind, v, how, newnum, "b" if swap else "a", name, "a" if swap else "b"), {"got": g, "truth": truth, "a": repr(a), "b": repr(b)})
+                                        break
+                            a.GetValue().GetFraction().numerator = num0
                             # a FractionScalar shares the FractionValue it was built from / hands out: after the
                             # caller edits it the order follows the NEW amount (nothing remembered from before)
                             else_ok = True
@@ -406,28 +429,6 @@ def _fraction_cross_unit_task(qts):
                                 if g != truth:
                                     part.violation("C08:fraction-cross-unit:%s %r %s vs %s %s:after 8 comparisons the caller sets the number to %d: %s %s %s" % (qt, (n, (num, den)), u, kind, v, n + 40, "b" if swap else "a", name, "a" if swap else "b"), {"got": g, "a": repr(a), "b": repr(b)})
                                     break
-                            # ... and the same after an edit that goes through no setter of the value at all: the Fraction
-                            # object the value hands out is edited in place (numerator setter / index form)
-                            for how in ("fraction.numerator = ", "fraction[0] = "):
-                                fr = fv.GetFraction()
-                                newnum = int(fr.denominator) * 7 + 1
-                                if how.startswith("fraction["):
-                                    fr[0] = newnum + int(fr.denominator)
-                                    newnum += int(fr.denominator)
-                                else:
-                                    fr.numerator = newnum
-                                qa3 = model.tobase(u, Q(n + 40) + Q(newnum, int(fv.GetFraction().denominator)))
-                                for name, swap in (("<", 0), ("<", 1), (">=", 0), (">", 1)):
-                                    part.count("evaluations")
-                                    p, q, pa, qb_ = (b, a, qb, qa3) if swap else (a, b, qa3, qb)
-                                    truth = {"<": pa < qb_, ">=": pa >= qb_, ">": pa > qb_}[name]
-                                    try:
-                                        g = opf[name](p, q)
-                                    except Exception as e:
-                                        g = repr(e)
-                                    if g != truth:
-                                        part.violation("C08:fraction-cross-unit:%s %r %s vs %s %s:after comparisons the caller edits the value's Fraction in place (%s%d): %s %s %s" % (qt, (n, (num, den)), u, kind, v, how, newnum, "b" if swap else "a", name, "a" if swap else "b"), {"got": g, "truth": truth, "a": repr(a), "b": repr(b)})
-                                        break
                         part.add("nontrivial", ("fcu", u, v))
     return part
 
